@@ -501,6 +501,27 @@ SVC_TYPES = ['L2Bridge', 'L2STS', 'L2PTP', 'FABNetv4', 'L3VPN', 'FABNetv6']
 STATES = ['Failed', 'Closed']
 
 
+def lookalikes(name):
+    """names different from `name` that a careless comparison would take for it: other letter case, and characters
+    whose Unicode case folding is an ASCII letter / letter pair (long s, Kelvin sign, sharp s, fi ligature)"""
+    out = []
+    for x in (name.swapcase(), name.upper(), name.capitalize(), name.replace('s', '\u017f', 1),
+              name.replace('k', '\u212a', 1), name.replace('ss', '\u00df', 1), name.replace('fi', '\ufb01', 1)):
+        if x != name and x.casefold() == name.casefold() and x not in out:
+            out.append(x)
+    return out
+
+
+def lookalike_names(snap):
+    """names in the snapshot that have a look-alike (equal after case folding, different as strings)"""
+    by = {}
+    for d in snap['nodes'].values():
+        n = d.get('Name')
+        if isinstance(n, str):
+            by.setdefault(n.casefold(), set()).add(n)
+    return {n for g in by.values() if len(g) > 1 for n in g}
+
+
 def gen_history(rng, flavour, nsteps, p_remove=0.12):
     """returns (history, final snapshot).  Every choice comes from rng."""
     env = Env(flavour, 0)
@@ -511,6 +532,16 @@ def gen_history(rng, flavour, nsteps, p_remove=0.12):
     def fresh(prefix):
         counter[0] += 1
         return '%s%d' % (prefix, counter[0])
+
+    def sibling(prefix, sibs, p=0.3):
+        """a fresh name - or, often when the scope already has members, a LOOK-ALIKE of a sibling's name (legal: names are
+        compared exactly); by-name removals must then take the named element, not its look-alike"""
+        names = [v.name(x) for x in sibs if isinstance(v.name(x), str)]
+        if names and rng.random() < p:
+            alts = [a for a in lookalikes(rng.choice(sorted(names))) if a not in names]
+            if alts:
+                return rng.choice(alts)
+        return fresh(prefix)
 
     try:
         for _ in range(nsteps):
@@ -528,34 +559,43 @@ def gen_history(rng, flavour, nsteps, p_remove=0.12):
                 cand.append(fn)
                 w.append(weight)
 
-            add(6 if len(nodes) < 2 else 2, lambda: ['node', fresh('n'), rng.choice(SITES),
+            add(6 if len(nodes) < 2 else 2, lambda: ['node', sibling('n', nodes, 0.1), rng.choice(SITES),
                                                       rng.choice(['VM', 'VM', 'Server'] if flavour == 'exp' else ['Server', 'Server', 'VM'])])
             if plain:
-                add(7, lambda: ['comp', v.name(rng.choice(plain)), fresh('c'), rng.choice(EXP_MODELS)])
+                def mk_comp():
+                    n = rng.choice(plain)
+                    return ['comp', v.name(n), sibling('c', v.nb(n, 'has', 'Component')), rng.choice(EXP_MODELS)]
+                add(7, mk_comp)
                 if flavour == 'exp':
                     add(1, lambda: ['storage', v.name(rng.choice(plain)), fresh('st')])
             add(2, lambda: ['facility', fresh('f'), rng.choice(SITES), rng.choice([1, 1, 2, 3])])
             add(2, lambda: ['switch', fresh('sw'), rng.choice(SITES), rng.choice([1, 2, 3])])
             ded = [i for i in cps if v.typ(i) == 'DedicatedPort']
             if ded:
-                add(5, lambda: ['child', v.iface_path(rng.choice(ded)), fresh('ch'), rng.randrange(1, 4000)]
-                    + (['K'] if rng.random() < 0.4 else []))
+                def mk_child():
+                    p = rng.choice(ded)
+                    return (['child', v.iface_path(p), sibling('ch', v.children(p), 0.4), rng.randrange(1, 4000)]
+                            + (['K'] if rng.random() < 0.4 else []))
+                add(5, mk_child)
             if nodes:
-                add(2, lambda: ['nns', v.name(rng.choice(nodes)), fresh('s'),
-                                rng.choice(['MPLS', 'VLAN', 'OVS', 'P4'])])
+                def mk_nns():
+                    n = rng.choice(nodes)
+                    return ['nns', v.name(n), sibling('s', v.nb(n, 'has', 'NetworkService'), 0.4),
+                            rng.choice(['MPLS', 'VLAN', 'OVS', 'P4'])]
+                add(2, mk_nns)
             nns = [s for s in v.of_class('NetworkService')
                    if v.owner_of_service(s) and v.cls(v.owner_of_service(s)[0]) == 'NetworkNode']
             if nns:
                 def mk_nif():
                     s = rng.choice(nns)
-                    return ['nif', v.name(v.owner_of_service(s)[0]), v.name(s), fresh('p'),
+                    return ['nif', v.name(v.owner_of_service(s)[0]), v.name(s), sibling('p', v.cps_of_service(s), 0.4),
                             rng.choice(['TrunkPort', 'AccessPort', 'DedicatedPort', 'FacilityPort'])]
                 add(4, mk_nif)
             if flavour == 'exp' and free:
                 def mk_ns():
                     k = rng.choice([0, 1, 1, 2, 2, 2, 3, 4])
                     sel = rng.sample(free, min(k, len(free)))
-                    return ['ns', fresh('net'), rng.choice(SVC_TYPES), [v.iface_path(i) for i in sel]]
+                    return ['ns', sibling('net', tops, 0.1), rng.choice(SVC_TYPES), [v.iface_path(i) for i in sel]]
                 add(7, mk_ns)
                 if tops:
                     add(5, lambda: ['connect', v.name(rng.choice(tops)), v.iface_path(rng.choice(free))]
